@@ -41,6 +41,10 @@ type World struct {
 	// FailWriteIf, if set, makes every write it selects fail (independent of how many writes the
 	// executor makes and when).
 	FailWriteIf func(*migrate.Revision) bool
+	// FailRead: the k-th ReadRevision (single look-up) of the current attempt fails with a transient
+	// error; the ReadRevisions listing is unaffected.
+	FailRead int
+	ReadN    int
 }
 
 func New() *World { return &World{Revs: map[string]*migrate.Revision{}} }
@@ -71,6 +75,11 @@ func (w *World) ReadRevisions(context.Context) ([]*migrate.Revision, error) {
 	return out, nil
 }
 func (w *World) ReadRevision(_ context.Context, v string) (*migrate.Revision, error) {
+	w.ReadN++
+	if w.ReadN == w.FailRead {
+		w.Log = append(w.Log, Ev{Kind: "R", Stmt: v, OK: false})
+		return nil, errors.New("read boom: connection reset")
+	}
 	if r, ok := w.Revs[v]; ok {
 		return CpRev(r), nil
 	}
